@@ -719,4 +719,9 @@ def is_consistent(C):
 
     Order as computed by :func:`ro`.
     """
-    return not C3.resolver(C, False, None).had_inconsistency
+    resolver = C3.resolver(C, False, None)
+    # The inconsistency flags are only set while the order is being
+    # merged, and building the resolver only does that for the bases
+    # of *C*, not for *C* itself.
+    resolver.mro()
+    return not resolver.had_inconsistency
